@@ -60,6 +60,9 @@ pub fn c09_directed() -> Vec<(&'static str, &'static str)> {
         ("undeclared-in-uncalled-function", "print(\"eerst\"); functie nooit() { onbekend }; 1"),
         ("undeclared-in-dead-branch", "print(\"eerst\"); als nee { onbekend }; 1"),
         ("undeclared-assignment-target", "print(\"eerst\"); onbekend = 1"),
+        ("undeclared-after-antwoord", "print(\"eerst\"); functie f(a) { als a > 1 { antwoord a; onbekend }; antwoord 0; nog_onbekender }; f(2)"),
+        ("undeclared-after-stop", "print(\"eerst\"); stel i = 0; zolang i < 3 { i += 1; als i == 2 { stop; onbekend }; volgende; print(ook_onbekend) }; i"),
+        ("undeclared-after-antwoord-in-block", "functie f() { { antwoord 1; stel x = onbekend } }; print(\"eerst\"); f()"),
         ("use-before-declaration", "print(\"eerst\"); x; stel x = 1"),
         ("declared-in-sibling-block", "{ stel a = 1 }; { a }"),
         ("loop-body-scope", "stel i = 0; zolang i < 2 { i += 1; stel t = i }; t"),
